@@ -166,16 +166,35 @@ def _(h):
         h.same(f'log[{i}]', L[i], one(SO3, av[i]).log())
 
 
-@claim('SO3 angle accessors')
+ANGLE_ACCESSORS = {
+    'rpy': lambda X: X.rpy(), 'rpy-xyz': lambda X: X.rpy(order='xyz'), 'rpy-yxz': lambda X: X.rpy(order='yxz'),
+    'rpy-arm-deg': lambda X: X.rpy(order='arm', unit='deg'), 'rpy-deg': lambda X: X.rpy(unit='deg'),
+    'eul': lambda X: X.eul(), 'eul-flip': lambda X: X.eul(flip=True), 'eul-deg': lambda X: X.eul(unit='deg'),
+}
+
+for _nm, _f in ANGLE_ACCESSORS.items():
+    for _cls in (SO3, SE3):
+        @claim(f'{_cls.__name__} angle accessor {_nm}')
+        def _(h, nm=_nm, f=_f, cls=_cls):
+            """every option of the per-value angle accessors reaches every element of a multi-valued object"""
+            A, av = seq(h, cls, 'A', 2)
+            r = np.asarray(f(A))
+            h.true(f'{nm}: one column per value', r.shape == (3, 2))
+            if r.shape != (3, 2):
+                return
+            for i in range(2):
+                h.same(f'{nm}[{i}]', r[:, i], f(one(cls, av[i])))
+
+
+@claim('UnitQuaternion angle accessors')
 def _(h):
-    A, av = seq(h, SO3, 'A', 2)
-    for nm, f in (('rpy', lambda X: X.rpy()), ('eul', lambda X: X.eul())):
+    A, av = seq(h, UnitQuaternion, 'A', 2)
+    for nm, f in (('rpy', lambda X: X.rpy()), ('rpy-xyz-deg', lambda X: X.rpy(order='xyz', unit='deg')), ('eul', lambda X: X.eul())):
         r = np.asarray(f(A))
-        h.true(f'{nm}: one column per value', r.shape == (3, 2))
-        if r.shape != (3, 2):
-            continue
+        h.true(f'{nm}: 2 results of 3 angles', r.shape in ((3, 2), (2, 3)))
         for i in range(2):
-            h.same(f'{nm}[{i}]', r[:, i], f(one(SO3, av[i])))
+            ri = r[:, i] if r.shape == (3, 2) and r.shape != (2, 3) else r[i]
+            h.same(f'{nm}[{i}]', ri, f(one(UnitQuaternion, av[i])))
 
 
 @claim('SE3 accessors')
